@@ -101,6 +101,11 @@ def build(ctx):
 
 def compare(ctx, cases, impl, model, stats):
     n = 0; seen = set(); hist = collections.Counter(); sample_budget = 4
+    sigs = collections.Counter()
+    def report(sig, replay, what):
+        # one VIOLATION line (with its replay file) per failure class; further inputs of the same class are counted
+        sigs[sig] += 1
+        if sigs[sig] == 1: ctx.report(sig, replay, what)
     for c_line, i_line, m_line in zip(cases, impl, model):
         n += 1
         c_line = c_line.rstrip("\n"); i_line = i_line.rstrip("\n"); m_line = m_line.rstrip("\n")
@@ -117,32 +122,32 @@ def compare(ctx, cases, impl, model, stats):
         # ---- the property's own oracle, on the implementation's answer -------------------------------------------
         if iv.startswith("crash") or iv.startswith("timeout") or iv == "":
             cls = "timeout" if iv.startswith("timeout") else san_class(i_line)
-            ctx.report("san:%s:%s" % (cls, "consistent" if what is None else "inconsistent"), replay,
+            report("san:%s:%s" % (cls, "consistent arguments" if what is None else what[0].split(",")[0]), replay,
                        "fit on %s arguments (%s): %s" % ("consistent" if what is None else "inconsistent", "; ".join(what or ["-"]), i_line[:400]))
             continue
         if what is None:
             if iv.startswith("reject"):
-                ctx.report("rejects-consistent:" + kind, replay, "fit rejects consistent arguments: " + iv)
+                report("rejects-consistent:" + kind, replay, "fit rejects consistent arguments: " + iv)
             elif not (iv.startswith("ok shape") or iv == "glamfail"):
-                ctx.report("unexpected-outcome", replay, "fit on consistent arguments ended with: " + iv)
+                report("unexpected-outcome", replay, "fit on consistent arguments ended with: " + iv)
             elif case["tag"].startswith("wp:") and not (iv.startswith("ok shape") and fi.get("finite") == "1"):
-                ctx.report("valid-fit-fails", replay, "a well-posed valid fit did not complete with finite coefficients: " + i_line[:200])
+                report("valid-fit-fails", replay, "a well-posed valid fit did not complete with finite coefficients: " + i_line[:200])
         else:
             if not (iv.startswith("reject") and kind in ARG_ERRORS):
-                ctx.report("accepts-inconsistent:" + what[0].split(",")[0], replay,
+                report("accepts-inconsistent:" + what[0].split(",")[0], replay,
                            "inconsistent arguments (%s) are not rejected by an argument error: %s" % ("; ".join(what), i_line[:300]))
             elif fi.get("table") != "unchanged" or fi.get("pop") != "unchanged":
-                ctx.report("reject-changes-table", replay, "fit threw %s but the table changed: %s" % (iv, i_line[:300]))
+                report("reject-changes-table", replay, "fit threw %s but the table changed: %s" % (iv, i_line[:300]))
         if iv.startswith("glamfail") or (iv.startswith("reject") is False and fi.get("table") == "CHANGED"):
             pass  # a numerical failure after the mutation is outside C13 (the arguments were consistent)
         if "c" in fi and fi["c"] != "na":
             threw = not iv.startswith("ok")
             if (fi["c"] != "0") != threw:
-                ctx.report("cwrapper-return", replay, "splinetable_glamfit returned %s but the C++ call %s" % (fi["c"], "threw " + iv if threw else "succeeded"))
+                report("cwrapper-return", replay, "splinetable_glamfit returned %s but the C++ call %s" % (fi["c"], "threw " + iv if threw else "succeeded"))
             if threw and iv.startswith("reject") and fi.get("ctable") != "unchanged":
-                ctx.report("cwrapper-table", replay, "splinetable_glamfit failed (%s) and changed the table" % iv)
+                report("cwrapper-table", replay, "splinetable_glamfit failed (%s) and changed the table" % iv)
             if fi.get("cnull") != "111":
-                ctx.report("cwrapper-null", replay, "splinetable_glamfit with a null handle returned 0: cnull=%s" % fi.get("cnull"))
+                report("cwrapper-null", replay, "splinetable_glamfit with a null handle returned 0: cnull=%s" % fi.get("cnull"))
         # ---- model / implementation correspondence ------------------------------------------------------------------
         ok = True
         if mv.startswith("fault") or mv in ("bad-input", "model-inconsistent", ""):
@@ -164,6 +169,9 @@ def compare(ctx, cases, impl, model, stats):
             sample_budget -= 1
             ctx.coverage["samples"].append({"tag": case["tag"], "ndim": case["ndim"], "orders": case["orders"], "nknots": [len(k) for k in case["knots"]],
                                             "penalty": case["penalty"], "impl": i_line[:160], "model": m_line[:160]})
+    if sigs:
+        ctx.coverage["failure_classes"] = dict(sigs)
+        ctx.note("failing inputs per class: %s" % dict(sigs))
     return n, seen, hist
 
 
